@@ -875,6 +875,18 @@ def ih_growth():
                 return dict(call=lambda: T.append(lb), new=[lb])
         return None
 
+    @reg('append_last_path_fresh_leaf')
+    def _(h):
+        # depth >= 3: every label but the innermost is that of the LAST tuple held; only the leaf is new (the levels between root and leaf do not grow)
+        T = h.T
+        ls = labels_of(T)
+        if T.depth < 3 or not ls:
+            return None
+        h.k += 1
+        last = ls[-1]
+        lb = tuple(last[:-1]) + ('leaf%d' % h.k if isinstance(last[-1], str) else 900 + h.k,)
+        return dict(call=lambda: T.append(lb), new=[lb])
+
     @reg('append_list_label')
     def _(h):
         T, lb = h.T, h.fresh()
@@ -983,7 +995,7 @@ def ih_growth():
     return G
 
 
-IH_CORE_G = ['append_new_outer', 'append_existing_outer', 'append_dup', 'extend', 'extend_partial_dup', 'grow_derived', 'append_short']
+IH_CORE_G = ['append_new_outer', 'append_existing_outer', 'append_dup', 'extend', 'extend_partial_dup', 'grow_derived', 'append_short', 'append_last_path_fresh_leaf']
 IH_MINI_G = ['append_new_outer', 'append_existing_outer', 'append_dup', 'extend_partial_dup', 'grow_derived']
 
 
